@@ -74,3 +74,33 @@ def with_start(model, settings):
     except Exception:  # noqa
         pass
     return settings
+
+
+class Reach:
+    """Semantics that records which rules returned a value (one action per rule name)."""
+
+    def __init__(self):
+        self.hit = set()
+
+    def __getattr__(self, name):
+        if name.startswith('__') or name in ('_default', 'safe_context'):
+            raise AttributeError(name)
+        hit = self.hit
+
+        def act(ast, *a, **k):
+            hit.add(name.strip('_'))
+            return ast
+        return act
+
+
+def rule_reach(m, group, label, model, inputs, **settings):
+    """Vacuity bookkeeping: which rules of `model` return a value on some input of `inputs`."""
+    sem = Reach()
+    for t in inputs:
+        try:
+            with contextlib.redirect_stderr(io.StringIO()):
+                model.parse(t, semantics=sem, **settings)
+        except Exception:  # noqa
+            pass
+    for r in model.rules:
+        m.reach(group, f'{label}:{r.name}', r.name.strip('_') in sem.hit)
